@@ -214,6 +214,10 @@ def is_assertable(obj: Any, recursion_depth: int = 0) -> bool:
         # Creating exact assertions on float values is usually not desirable.
         return False
 
+    if isinstance(obj, complex) and obj != obj:  # noqa: PLR0124
+        # A complex number with a NaN part is unequal to itself: ``x == <value>`` can never hold.
+        return False
+
     tp_ = type(obj)
     if is_enum(tp_) or is_primitive_type(tp_) or is_none_type(tp_):
         return True
